@@ -1,0 +1,20 @@
+//go:build verif
+
+// Contracts for the deductive verifier in /verif (govc). Comment-only file:
+// with the build tag off it does not exist, with the tag on it compiles to nothing.
+
+package json
+
+//@ spec ws(c) := c == 32 || c == 10 || c == 9 || c == 13
+//@ spec bufOK(b, c) := len(b) >= 1 && b[len(b)-1] == 0 && 0 <= c && c < len(b)
+//@ spec wsRun(b, lo, hi) := forall k :: 0 <= k && k < hi - lo ==> ws(b[lo+k])
+
+// Trailing data (C05): success only if everything from cursor to the real
+// terminator (the last byte of the private copy) is whitespace.
+//@ func validateEndBuf(src, cursor) (err)
+//@   props C05 C06
+//@   requires bufOK(src, cursor)
+//@   ensures err == nil ==> wsRun(src, cursor, len(src)-1)
+//@   assigns nothing
+//@   loop 1: invariant old(cursor) <= cursor && cursor < len(src) && wsRun(src, old(cursor), cursor)
+//@   loop 1: decreases len(src) - cursor
